@@ -122,18 +122,21 @@ impl Scaled {
     }
 
     /// TeX.2021.105
-    pub fn nx_plus_y(self, mut n: i32, y: Scaled) -> Result<Scaled, OverflowError> {
-        let max_answer = Scaled::MAX_DIMEN;
+    pub fn nx_plus_y(self, n: i32, y: Scaled) -> Result<Scaled, OverflowError> {
+        // 64-bit arithmetic: n and x may be -2^31, which cannot be negated in 32 bits.
+        let max_answer: i64 = Scaled::MAX_DIMEN.0.into();
         if n == 0 {
             return Ok(y);
         }
-        let mut x = self;
+        let (mut n, mut x, y): (i64, i64, i64) = (n.into(), self.0.into(), y.0.into());
         if n < 0 {
             n = -n;
             x = -x;
         }
         if x <= (max_answer - y) / n && -x <= (max_answer + y) / n {
-            Ok(x * n + y)
+            i32::try_from(x * n + y)
+                .map(Scaled)
+                .map_err(|_| OverflowError {})
         } else {
             Err(OverflowError {})
         }
